@@ -47,6 +47,16 @@ spec fn is_selection(sel: Seq<bool>, k: int, n: int) -> bool { sel.len() == n &&
 spec fn chosen<Pk: MiniscriptKey>(sel: Seq<bool>, sats: Seq<Satisfaction<Placeholder<Pk>>>, dissats: Seq<Satisfaction<Placeholder<Pk>>>) -> Seq<ASat<Pk>> {
     Seq::new(sel.len(), |j: int| if sel[j] { abs_sat(sats[j]) } else { abs_sat(dissats[j]) })
 }
+// sufficiency of the reported locks (C17): a result that exists for somebody reports no lock of its own -- each lock
+// it reports is the lock of one of the children's (possible) satisfactions / dissatisfactions
+spec fn carries_abs<Pk: MiniscriptKey>(e: Satisfaction<Placeholder<Pk>>, l: Option<AbsLockTime>) -> bool { wkind(e.stack) != 2 && e.absolute_timelock == l }
+spec fn carries_rel<Pk: MiniscriptKey>(e: Satisfaction<Placeholder<Pk>>, l: Option<RelLockTime>) -> bool { wkind(e.stack) != 2 && e.relative_timelock == l }
+spec fn locks_inherited<Pk: MiniscriptKey>(r: Satisfaction<Placeholder<Pk>>, a: Seq<Satisfaction<Placeholder<Pk>>>, b: Seq<Satisfaction<Placeholder<Pk>>>) -> bool {
+    wkind(r.stack) != 2 ==> {
+        &&& (r.absolute_timelock is Some ==> exists|j: int| 0 <= j < a.len() && j < b.len() && (carries_abs(#[trigger] a[j], r.absolute_timelock) || carries_abs(b[j], r.absolute_timelock)))
+        &&& (r.relative_timelock is Some ==> exists|j: int| 0 <= j < a.len() && j < b.len() && (carries_rel(#[trigger] a[j], r.relative_timelock) || carries_rel(b[j], r.relative_timelock)))
+    }
+}
 // completeness (malleable mode): when k children have an available satisfaction (and every child an available
 // dissatisfaction: they are all `d`), the entries that are put together are all available -- the result is then a
 // witness unless two of its time locks can never be met together (t_seq)
